@@ -355,4 +355,62 @@ def run(tier, seed):
                         cs = [x for x in stores_to_field(mod, RD, "curr_file", [nf]) if x.block.id == s.block.id]
                         rep.check(rid, len(cs) == 1 and M.match(("load", ("field", RD, "dir_stack", ("param", 0))), cs[0].ops[0], {}) is not None,
                                   "FAKE_DIR entry is popped from dir_stack", s.where(), None, function=nf.cname, obj="fake-source")
+        # ---- R6c: link-following metadata setters only on objects created by this very call ---------------------------------------
+        rid = rep.rule("R6c", "utime/chmod/chown follow symbolic links: every path handed (directly or through a path-forwarding helper) to lha_arch_utime/chmod/chown "
+                              "is one the same function created with lha_arch_fopen (O_EXCL, R3) or lha_arch_mkdir and saw succeed, or belongs to a re-presented directory", 3)
+        META = {"lha_arch_utime": 0, "lha_arch_chmod": 0, "lha_arch_chown": 0}
+        for w in sorted(META):
+            rep.need(rid, mod.fn(w), "function %s" % w)
+        fwd = dict(META)                     # cname -> index of the forwarded path parameter
+        changed = True
+        while changed:
+            changed = False
+            for f in mod.defined():
+                if f.cname in fwd or not f.file.endswith("lha_reader.c"):
+                    continue
+                Mf = Matcher(f)
+                for c in f.insts():
+                    if c.op == "call" and mod.callee_cname(c) in fwd and len(c.ops) > fwd[mod.callee_cname(c)]:
+                        a = Mf.strip(c.ops[fwd[mod.callee_cname(c)]], ("bitcast",))
+                        d = f.defn(a)
+                        if d is not None and d.is_param:
+                            fwd[f.cname] = d.index
+                            changed = True
+                            break
+        FAKE = mod.enums.get("CURR_FILE_FAKE_DIR")
+        nsites = 0
+        for f in mod.defined():
+            if not f.file.endswith("lha_reader.c"):
+                continue
+            Mf = Matcher(f)
+            Ff = None
+            for c in f.insts():
+                cn = mod.callee_cname(c) if c.op == "call" else None
+                if cn not in fwd or len(c.ops) <= fwd[cn]:
+                    continue
+                a = Mf.strip(c.ops[fwd[cn]], ("bitcast",))
+                d = f.defn(a)
+                if f.cname in fwd and d is not None and d.is_param and d.index == fwd[f.cname]:
+                    continue                 # the helper only forwards its own path parameter: decided at its call sites
+                nsites += 1
+                Ff = Ff or ctx.facts(f)
+                why = None
+                for fact in Ff.at_inst(c):
+                    if fact[0] == "in":
+                        continue
+                    x = Mf.strip(fact[1], ("bitcast",))
+                    dx = f.defn(x)
+                    zero = fact[2][0] == "null" or (is_const(fact[2]) and const_val(fact[2]) == 0)
+                    if fact[0] == "ne" and zero and dx is not None and not dx.is_param and dx.op == "call" and mod.callee_cname(dx) in ("lha_arch_fopen", "lha_arch_mkdir") \
+                            and dx.ops and Mf.strip(dx.ops[0], ("bitcast",)) == a:
+                        why = "%s(path, ...) succeeded for the same path value" % mod.callee_cname(dx)
+                        break
+                    if FAKE is not None and fact[0] == "eq" and is_const(fact[2]) and const_val(fact[2]) == FAKE and \
+                            Mf.match(("load", ("field", RD, "curr_file_type", ANY)), fact[1], {}) is not None:
+                        why = "curr_file_type == CURR_FILE_FAKE_DIR (a directory created earlier in this run, R6/R6b)"
+                        break
+                rep.check(rid, why is not None, "%s: path given to %s was created by this call" % (f.cname, cn), c.where(),
+                          why or "no fact that lha_arch_fopen/lha_arch_mkdir succeeded for this path value (the setter would follow a symbolic link at that name)",
+                          function=f.cname, obj="meta-%s-%d" % (cn, nsites))
+        rep.check(rid, nsites >= 3, "metadata sites found", "lib/lha_reader.c", "%d sites, forwarding helpers %s" % (nsites, sorted(set(fwd) - set(META))), function="lha_reader.c", obj="sites")
     return rep.finish(seed)
